@@ -2,6 +2,7 @@ package props
 
 import (
 	"os"
+	"runtime"
 	"strconv"
 
 	"verif/harness/internal/cbpf"
@@ -27,4 +28,18 @@ func shardInfo() (int, int) {
 		return 1, 0
 	}
 	return n, i % n
+}
+
+func hostArchName() string {
+	switch runtime.GOARCH {
+	case "amd64":
+		return "x86_64"
+	case "386":
+		return "i386"
+	case "arm":
+		return "arm"
+	case "arm64":
+		return "aarch64"
+	}
+	return runtime.GOARCH
 }
